@@ -142,3 +142,16 @@ def _(c):
     c.ensures("implies(result is not None and has_pos, result['lineno'] == n and 1 <= n and n <= len(self._lines()) and result['col_offset'] == node.col_offset)", name="failure_location_in_file")
     c.ensures("implies(result is not None, 'description' in result and 'message' in result)", name="failure_has_text")
     c.ensures("implies(result is not None and error_code is not None, result['code'] is error_code)", name="failure_carries_code")
+
+
+# C16: the replacement show_error proposes under add_ignores (hypothesis `own(c, code0)` of lemma add_ignores_step)
+_TXT = "'self._changes_for_fixer[self.filename]'"
+_c = REG.contracts["pyanalyze.node_visitor.BaseNodeVisitor.show_error"]
+_c.fieldspec("lines_to_add", "seq[str]")
+_c.ensures(f"implies(result is not None and has_pos and self._changes_for_fixer is not None and self.add_ignores,"
+           f" len(appended({_TXT})) == 1 and len(appended({_TXT})[0].linenos_to_delete) == 1 and appended({_TXT})[0].linenos_to_delete[0] == n"
+           f" and len(appended({_TXT})[0].lines_to_add) == 2 and same(appended({_TXT})[0].lines_to_add[1], self._lines()[n - 1])"
+           f" and same(appended({_TXT})[0].lines_to_add[0], '{{}}{{}}\\n'.format(' ' * analysis_lib.get_indentation(self._lines()[n - 1]),"
+           f" ite(error_code is not None, f'{{ignore_comment}}[{{error_code.name}}]', ignore_comment))))",
+           name="proposed_ignore_line_is_own_line_form")
+_c.ensures(f"implies(result is None or not has_pos or self._changes_for_fixer is None, len(appended({_TXT})) == 0)", name="no_fix_proposed_without_failure")
